@@ -139,6 +139,24 @@ def coherence():
                 ls = getattr(ut, "_list_size", {})
                 ok = m.name in ls and isinstance(ls[m.name], int) and ls[m.name] >= 0
                 ob(u, f"C20/UNION-LIST/{ut.__name__}/{m.name}/has-fixed-length", ok)
+    # every field's type object is the registered class of that name: the layout is pinned per class *name*, so a field that
+    # carries a look-alike (a derived or patched copy with the same name) would escape the pinned layout
+    from tpmstream.spec import all_types
+    registry = {}
+    for t in list(all_types) + list(structures_types) + [t for _, t in all_area]:
+        registry.setdefault(t.__name__, t)
+    for t in struct_like + sorted(used_unions, key=lambda t: t.__name__):
+        bad = []
+        for f in dataclasses.fields(t):
+            ft = f.type.__args__[0] if is_list_t(f.type) else f.type
+            if ft is None or not isinstance(ft, type):
+                continue
+            reg = registry.get(ft.__name__)
+            if reg is None:
+                bad.append(f"{f.name}: {ft.__name__} is not a registered type")
+            elif reg is not ft:
+                bad.append(f"{f.name}: {ft.__name__} is a different class object than the registered {reg.__module__}.{reg.__name__}")
+        ob(u, f"C20/FIELD-TYPES/{t.__name__}/are-the-registered-classes", not bad, "; ".join(bad[:3]), site=f"{t.__module__}:{t.__name__}")
     # acyclic type graph
     graph = {}
     def succ(t):
@@ -188,15 +206,21 @@ def coherence():
                 if id(r) in seen_ranges:
                     continue
                 seen_ranges.add(id(r))
-                width = r._end - r._start
-                points = range(r._start, r._end) if width <= 4096 else [r._start, r._start + 1, r._start + 0x10, r._start + 0xFF, r._start + width // 2, r._end - 2, r._end - 1]
+                from dump_layout import range_info
+                ri = range_info(r)  # observable interval and naming parameters (pinned against layout.json by C20/EQ)
+                r_start, r_end = ri["range"]
+                width = r_end - r_start
+                points = range(r_start, r_end) if width <= 4096 else [r_start, r_start + 1, r_start + 0x10, r_start + 0xFF, r_start + width // 2, r_end - 2, r_end - 1]
                 bad = []
                 for n in points:
                     m = r.by_number(n)
-                    want = f"{r._basename}{r._sep}{n - r._start:0{r._index_nibbles}x}"
+                    want = f"{ri['base']}{ri['sep']}{n - r_start:0{ri['nibbles']}x}"
                     if getattr(m, "_name", None) != want or int(getattr(m, "_value", -1)) != n:
                         bad.append(f"{n:#x}: {getattr(m, '_name', m)!r} expected {want!r}")
-                ob(u, f"C20/RANGE-NAMES/{r._type.__name__}.{r._basename}", not bad, "; ".join(bad[:3]) or f"{len(points)} values", site=f"values.py:NamedRange.by_number")
+                for n in (r_start - 1, r_end):
+                    if n in r:
+                        bad.append(f"{n:#x} is accepted although it lies outside the block")
+                ob(u, f"C20/RANGE-NAMES/{ri['owner']}.{ri['base']}", not bad, "; ".join(bad[:3]) or f"{len(points)} values", site=f"values.py:NamedRange.by_number")
     u.samples = [{"obligation": o["name"], "detail": o["detail"]} for o in u.obligations[:3]]
     return u
 
